@@ -21,6 +21,7 @@ type c13Doc struct {
 	kind string // s i B f t list map
 	s    string // string / int decimal / float text / time text
 	b    bool
+	tm   bool // a time.Time text (the JSON emitter writes it without ASCII escapes)
 	list []*c13Doc
 	keys []string
 	vals []*c13Doc
@@ -81,6 +82,11 @@ func c13Text(ts []c13Tok) string {
 }
 
 // c13Quote: a double-quoted string valid in JSON, YAML (double-quoted style), TOML (basic string) and Cue.
+// c13NoASCIIEscapes: set while a time.Time text is written.  encoding/json hands time.Time.UnmarshalJSON the RAW bytes
+// of the string token, and that method does not interpret escapes: an escaped RFC 3339 text is rejected by the standard
+// library itself, in every JSON-based decoder - not something the dials decoders decide.
+var c13NoASCIIEscapes bool
+
 func c13Quote(r *RNG, s string) string {
 	var b strings.Builder
 	b.WriteByte('"')
@@ -98,6 +104,8 @@ func c13Quote(r *RNG, s string) string {
 			fmt.Fprintf(&b, `\u%04x`, c)
 		case c >= 0x80 && c <= 0xffff && (c < 0xa0 || r.Chance(50)):
 			fmt.Fprintf(&b, `\u%04x`, c)
+		case c < 0x80 && r.Chance(2) && !c13NoASCIIEscapes:
+			fmt.Fprintf(&b, `\u%04x`, c) // any character may be written as an escape: the string is the same string
 		default:
 			b.WriteRune(c)
 		}
@@ -118,7 +126,9 @@ func c13FloatText(s string) string {
 func (e *c13Emitter) json(d *c13Doc) {
 	switch d.kind {
 	case "s", "t":
+		c13NoASCIIEscapes = d.kind == "t" || d.tm
 		e.t(c13Quote(e.r, d.s))
+		c13NoASCIIEscapes = false
 	case "i":
 		e.t(d.s)
 	case "f":
